@@ -74,6 +74,10 @@ func c19Specs() map[string][]byte {
 	e.Comp("schemas", "order-line", specgen.Obj([]string{"sku"}, specgen.M{"sku": specgen.Prim("string", ""), "qty": specgen.Prim("integer", "int32")}))
 	e.Op("/orders", "get", specgen.M{"responses": specgen.M{"200": specgen.Resp("ok", specgen.Arr(specgen.Ref("schemas", "order-line")))}})
 	out["E"] = specgen.MustJSON(e.Root)
+	// F: no operations at all (goag accepts `paths: {}`)
+	f := specgen.NewDoc("F")
+	f.Root["paths"] = specgen.M{}
+	out["F"] = specgen.MustJSON(f.Root)
 	return out
 }
 
@@ -151,7 +155,7 @@ func C19(r *core.Run) int {
 		nRand = 2500
 	}
 	rng := rand.New(rand.NewSource(r.Seed))
-	specKeys := []string{"A", "B", "C", "D", "E"}
+	specKeys := []string{"A", "B", "C", "D", "E", "F"}
 	for i := 0; i < nRand; i++ {
 		n := 4 + rng.Intn(5)
 		var h []c19Inv
@@ -284,7 +288,7 @@ func C19(r *core.Run) int {
 	cov := map[string]any{
 		"evaluations":         len(histories),
 		"distinct_nontrivial": len(histories) - len(base),
-		"rule":                "one evaluation = one history of real CLI invocations into one directory holding user files, compared (names, sha256, user-file mtime) with a single run of its last invocation into an empty directory, then the last invocation repeated; distinct = histories of length >= 2; exhaustive part: all 584 histories of length <= 3 over {spec with / without components} x {client on/off} x {api-handler on/off}; random part: length 4-8 over 5 specs (longer/shorter outputs, one whose output does not format), do-not-edit on/off, two package names, base path absent / v1 / v2",
+		"rule":                "one evaluation = one history of real CLI invocations into one directory holding user files, compared (names, sha256, user-file mtime) with a single run of its last invocation into an empty directory, then the last invocation repeated; distinct = histories of length >= 2; exhaustive part: all 584 histories of length <= 3 over {spec with / without components} x {client on/off} x {api-handler on/off}; random part: length 4-8 over 6 specs (longer/shorter outputs, one whose output does not format, one without operations), do-not-edit on/off, two package names, base path absent / v1 / v2",
 		"samples":             samples,
 		"exhaustive":          true,
 		"exhaustive_space":    fmt.Sprintf("%d histories of length <= 3 over %d invocations", nExh, len(base)),
